@@ -575,11 +575,16 @@ class Walk:
         # the body of a bogus packet): expectations about later deliveries are suspended until reconnect
         self.tainted = True
         c = r.random()
+        hostile_ack = None
         if c < 0.2:
-            pkt = b.ack(r.choice(["puback", "pubrec", "pubcomp"]), r.choice([1, 2, 3, 77, 65535]))
+            hk, hp = r.choice(["puback", "pubrec", "pubcomp"]), r.choice([1, 2, 3, 77, 65535])
+            pkt = b.ack(hk, hp)
+            hostile_ack = {"kind": hk, "pid": hp, "hostile": True}
             label = "unknown-or-wrong-ack"
         elif c < 0.3:
-            pkt = b.suback(r.choice([1, 2, 3, 99]), [0] * r.choice([0, 1, 2, 5]))
+            hp = r.choice([1, 2, 3, 99])
+            pkt = b.suback(hp, [0] * r.choice([0, 1, 2, 5]))
+            hostile_ack = {"kind": "suback", "pid": hp, "hostile": True}
             label = "bad-suback"
         elif c < 0.4:
             pkt = b.connack(0, 0, {})
@@ -600,6 +605,9 @@ class Walk:
             pkt = bytes(r.randint(0, 255) for _ in range(r.randint(1, 12)))
             label = "random-bytes"
         self.data(pkt, "hostile:" + label)
+        if hostile_ack:
+            # by chance this may be exactly the acknowledgement a pending operation is waiting for: it was delivered
+            self.notes[-1].update(ack=hostile_ack)
         if label == "second-connack":
             self.notes[-1].update(connack=dict(sp=0, rc=0, caps={}))
             if resp_fields(self.out[-1])[0].get("res") == "ok":
